@@ -168,13 +168,10 @@ impl<'a> SessionData<'a> {
                     QoS::ExactlyOnce => {
                         let packet_id = info.packet_id.ok_or(ProtocolError::MalformedPacket)?;
                         let duplicate = self.pending_server_packet_ids.contains(&packet_id);
-                        let reason = if !duplicate {
-                            self.pending_server_packet_ids
-                                .push(packet_id)
-                                .map(|_| ReasonCode::Success)
-                                .unwrap_or(ReasonCode::ReceiveMaxExceeded)
-                        } else {
+                        let reason = if duplicate || !self.pending_server_packet_ids.is_full() {
                             ReasonCode::Success
+                        } else {
+                            ReasonCode::ReceiveMaxExceeded
                         };
                         trace!(
                             "Queueing PUBREC for inbound QoS2 PUBLISH packet_id={=u16} duplicate={=bool} {}",
@@ -183,6 +180,11 @@ impl<'a> SessionData<'a> {
                         let action = ControlAction::PubRec { packet_id, reason };
                         check_control_packet_size(runtime.maximum_packet_size, action)?;
                         self.outbound.queue_control(action)?;
+                        // Only remember the identifier once its PUBREC is owed: a message that is neither
+                        // acknowledged nor delivered must not turn its retransmission into a duplicate.
+                        if !duplicate && reason.success() {
+                            let _ = self.pending_server_packet_ids.push(packet_id);
+                        }
                         if duplicate || !reason.success() {
                             debug!(
                                 "Ignoring inbound QoS2 PUBLISH after PUBREC packet_id={=u16} duplicate={=bool} reason={}",
